@@ -47,7 +47,8 @@ def extra_obligations(notes):
     by_shape = collections.defaultdict(list)
     for key, by in tab["sites"].items():
         f, fn, line = key.split("|", 2)
-        for kind in set([tab_kind.get(key)] if tab_kind.get(key) else [k for k, _ in extract.PANIC_PATTERNS]):
+        kind = tab_kind.get(key) or "+".join(extract.panic_kinds(line))       # (a listed site that is gone from the source: its kinds are read off its text)
+        if kind:
             by_shape[(f, shape(kind, line))].append(by)
     cur_shape = collections.Counter((f, shape(kind, line)) for f, fn, kind, line in sites)
     moved = []
